@@ -226,11 +226,21 @@ def h_migrate(name: int, wsd: int, ver: int, cache: bool, history: bool, njobs: 
     assert not problems
 
 
-def _refuse_case(layout, ver, entry):
-    """foreign schema versions in the CURRENT layout (.signac/config) and in the legacy layout (signac.rc)"""
+def _refuse_case(layout, ver, entry, probe=False):
+    """foreign schema versions in the CURRENT layout (.signac/config) and in the legacy layout (signac.rc); probe: the same process has
+    looked at the (then empty) directory before the project appeared there (restored from a backup, unpacked from an archive)"""
     problems = []
     with SL.Scratch() as sc:
         root = os.path.join(sc.root, "proj")
+        if probe:
+            os.makedirs(os.path.join(root, "workspace"))
+            for fn in (lambda: signac.get_project(root), lambda: signac.get_project(os.path.join(root, "workspace")), lambda: Project(root)):
+                try:
+                    fn()
+                    problems.append(("an empty directory was opened as a project",))
+                except LookupError:
+                    pass
+            shutil.rmtree(root)
         if layout == 0:
             pr = signac.init_project(root)
             j = pr.open_job({"a": 1}).init()
@@ -262,13 +272,13 @@ def _refuse_case(layout, ver, entry):
     return problems
 
 
-def h_refuse(layout: int, ver: int, entry: int):
+def h_refuse(layout: int, ver: int, entry: int, probe: bool):
     assert 0 <= layout <= 1 and 0 <= ver <= 5 and 0 <= entry <= 3 and not (layout == 0 and ver == 5)
     fresh_path()
-    layout, entry = ci(layout, 0, 1), ci(entry, 0, 3)
+    layout, entry, probe = ci(layout, 0, 1), ci(entry, 0, 3), cb(probe)
     v = pick([0, 1, 3, 10, None, 2], ver)
     with nt():
-        problems = _refuse_case(layout, v, entry)
+        problems = _refuse_case(layout, v, entry, probe)
     reached()
     assert not problems
 
